@@ -1,4 +1,41 @@
-(* placeholder *)
-From Coq Require Import ZArith.
-Theorem C12_placeholder : True. Proof. exact I. Qed.
-Print Assumptions C12_placeholder.
+(* C12 -- a program that assembles without compression also assembles with it.  Statements only (PARTIAL: see below). *)
+From Coq Require Import ZArith List String.
+From BB Require Import Base.PyBase Gen.Encoders Gen.Criteria Spec.RV32 Spec.RVC Spec.Operands Spec.Legal
+  Model.Items Model.Encode Model.Passes Proofs.Layout Proofs.Rules Proofs.RulesMain Proofs.Stable.
+Import ListNotations.
+Open Scope Z_scope.
+
+(* The compression pass cannot introduce an encoding failure on a settled immediate: whenever a rule is selected the
+   generated c.* encoder ACCEPTS the operands the construction row builds (for every register spelling and every
+   integer immediate) ... *)
+Theorem C12_selected_rule_is_accepted_partial :
+  forall i r, select_rule criteria i = Ok (Some r) -> wf_view (nview_of i) ->
+  exists fs final cls cfs h,
+    orig_fields (iv_name i) = Some fs /\ assoc_str r construction = Some (final, cls, cfs) /\
+    encode final (pos16_of (nview_of i) cfs) [] = Ok h.
+Proof.
+  intros i r Hs Hw. destruct (rule_encodes _ _ (rule_sound_item i r Hs Hw)) as (fs & final & cls & cfs & h & c & A & B & C & _).
+  exists fs, final, cls, cfs, h. auto.
+Qed.
+Print Assumptions C12_selected_rule_is_accepted_partial.
+
+(* ... and rules are consulted only for immediates that can no longer change, or for the distance of a jump / branch
+   to a label.  MISSING for the full statement (not proved; decided by the falsifier only): (a) that such a distance
+   only moves towards zero in the later passes, (b) the whole-program induction that every encode-time check passed
+   in the uncompressed layout still passes in the compressed layout. *)
+Theorem C12_decided_on_settled_partial : forall l pos consts cls fs e,
+  field_get "imm" fs = Some (FExpr e) -> imm_unstable l pos consts cls fs = Done false ->
+  jump_to_label consts cls e \/ exists v, forall pos' labels, eval_here l pos' consts labels e = Done v.
+Proof. exact compress_decides_on_settled. Qed.
+Print Assumptions C12_decided_on_settled_partial.
+
+(* the size decisions of li / call / tail are likewise taken on settled values or on distances to labels *)
+Theorem C12_li_near_settled_partial : forall consts l pos labels name args pimm e lo hi near f1 f2,
+  expand_pseudo l name args pimm = Done (Choice e None lo hi near f1 f2) ->
+  pseudo_rule consts l (IPseudo name args pimm) pos labels = Done [near] ->
+  exists v, lo <= c_int32 v <= hi /\ forall pos' labels', eval_here l pos' consts labels' e = Done v.
+Proof. exact li_near_final. Qed.
+Print Assumptions C12_li_near_settled_partial.
+
+Example C12_example : select_num criteria ex_view = Some "c.addi"%string /\ wf_view ex_view /\ regs_ok ex_view.
+Proof. exact ex_view_selected. Qed.
